@@ -53,7 +53,7 @@ MANIFEST = {
             'independence from the written order is.',
 }
 RULE = ('families perm/law/trunc/stage/null as described in the module '
-        'docstring, over 13 text values, their utf-8 bytes, 4 ints, 2 '
+        'docstring, over 15 text values, their utf-8 bytes, 4 ints, 2 '
         'floats, None, "", [], {} and an object with a method.  A run is '
         'non-trivial when the option(s) change the text of the value (or '
         'for perm: when at least two orders were compared).')
@@ -70,7 +70,8 @@ MODS = ['html_quote', 'url_quote', 'url_quote_plus', 'url_unquote',
 
 TEXTS = ['abc def ghi', 'abcdefgh ij', 'ab cdefghij', 'abcdefghij',
          'abcd efgh', "it's", 'a_b_c', '1234567', '1234567.891',
-         '%41%2541+x y', 'a\x00b\x1ac\rd\ne', 'MiXed caSe', '', '\xe9 €<&']
+         '%41%2541+x y', 'a\x00b\x1ac\rd\ne', 'MiXed caSe', '', '\xe9 €<&',
+         'AT&T rocks on', 'x&amp;y &#39;z&lt']
 PERM_VALUES = ["a_b %41%2541+'x\ny 1234567.5 Cd<", '%2541%253C 9999',
                'plain', '']
 
